@@ -232,6 +232,13 @@ func (p *Prog) Field(pkg, typ, field string) *types.Var {
 			}
 		}
 	}
+	if n := p.Named(pkg, typ); n != nil {
+		for v, own := range regrouped {
+			if vname(v) == field && own == n {
+				return v
+			}
+		}
+	}
 	// moved into an embedded struct of the same package (promoted field): same name, reached through
 	// anonymous fields only, unique
 	if n := p.Named(pkg, typ); n != nil {
